@@ -40,10 +40,10 @@ def trl (q : Dot1Q) (innerSize : Nat) : Nat :=
   if q.appendPadding then (if 4 + innerSize > 50 then 0 else 50 - (4 + innerSize)) else 0
 
 def tagFor (cx : Ctx) (q : Dot1Q) : Nat :=
-  match cx.innerCls with
+  match cx.inners.head? with
   | none => 0                                         -- payload_type(0)
-  | some cls =>
-    let flag := Tags.etherOfPduType (Tags.pduTypeOf cls)
+  | some i =>
+    let flag := etherTagOf i
     if flag != 0 then flag else q.ptype
 
 /-- `Dot1Q::write_serialization` -/
